@@ -13,6 +13,13 @@ GEN_BIN = os.path.join(GEN_TARGET, "release", "wow_message_parser")
 
 
 class GenScratch:
+    def __init__(self, target=None):
+        """`target`: cargo target directory of the generator build.  A check that EDITS the generator's sources in the scratch copy
+        (C07 extends the message index) must use its own directory: cargo's freshness test is by mtime, and the next rsync from
+        /repo restores the old file with its old mtime, so a shared directory would keep serving the edited binary."""
+        self.target = target or GEN_TARGET
+        self.bin = os.path.join(self.target, "release", "wow_message_parser")
+
     def __enter__(self):
         self.lock = Lock("gen")
         self.lock.__enter__()
@@ -26,7 +33,7 @@ class GenScratch:
 
     def build(self):
         env = env_offline()
-        env["CARGO_TARGET_DIR"] = GEN_TARGET
+        env["CARGO_TARGET_DIR"] = self.target
         t0 = time.time()
         rc, out = sh(["cargo", "build", "--release", "--offline", "-p", "wow_message_parser"], cwd=SCRATCH, timeout=3600, env=env)
         return rc, out, round(time.time() - t0, 1)
@@ -35,7 +42,7 @@ class GenScratch:
         env = env_offline()
         if extra_env:
             env.update(extra_env)
-        cmd = [GEN_BIN]
+        cmd = [self.bin]
         if taskset:
             cmd = ["taskset", "-c", taskset] + cmd
         t0 = time.time()
